@@ -15,7 +15,7 @@ def main():
         "multiprocessing / OS scheduling / shared-memory coherence are outside the model: exercised with real pools, not proved",
     ]
     run.assumptions += ["worker functions are slice-wise (row-wise) along the mapped dim; imap preserves submission order (CPython multiprocessing)"]
-    from c12_fns import hard_deadline, single_threaded_torch
+    from c12_fns import guarded_stream, hard_deadline, single_threaded_torch
     single_threaded_torch()
     quick = run.tier == "quick"
     import c12_pins
@@ -36,18 +36,18 @@ def main():
     c12_map.replay_cases(run, drv, [c["case"] for c in corpus], stream="map(corpus)")
     import c12_split
     with hard_deadline(300 if quick else 1500, "split"):
-        c12_split.run_split(run, drv)
+        guarded_stream(run, "split", c12_split.run_split, run, drv)
     if "--split-only" not in __import__("sys").argv:
         import c12_map
         with hard_deadline(420 if quick else 2400, "map (process pools)"):
-            c12_map.run_map(run, drv)
+            guarded_stream(run, "map", c12_map.run_map, run, drv)
         with hard_deadline(300 if quick else 1500, "map (extended domain)"):
-            c12_map.run_map_ext(run)
+            guarded_stream(run, "map-ext", c12_map.run_map_ext, run)
         if run.tier != "quick":
             c12_map.probe_max_tasks_per_child(run)
         import c12_threads
         with hard_deadline(420 if quick else 2400, "threads"):
-            c12_threads.run_threads(run, drv)
+            guarded_stream(run, "threads", c12_threads.run_threads, run, drv)
     run.finish("proof")
 
 
